@@ -29,6 +29,8 @@ func main() {
 	commands["steps"] = cmdSteps
 	commands["battles"] = cmdBattles
 	commands["rot"] = cmdRot
+	commands["api"] = cmdAPI
+	commands["api-replay"] = cmdAPIReplay
 	commands["configs"] = cmdConfigs
 	commands["battles-replay"] = cmdBattlesReplay
 	commands["steps-replay"] = cmdStepsReplay
